@@ -56,6 +56,16 @@ CLAIMED["C08"] = dict(
    note="A device implements exactly the FMMUs its EEPROM lists in tight configurations; bit-granular FMMUs are modelled but never programmed by ethercrab.",
    technique="deterministic simulation: real configuration + cycle code against the segment reference model, seeded device populations, structural + behavioural memory oracle", section="DESIGN.md §4 C08")
 
+CLAIMED["C10"] = dict(
+   text="1..16 simulated devices in 1..3 groups; one of six transition sequences (into_safe_op, into_op, request_into_op, into_init, OP->SAFE-OP, SAFE-OP->PRE-OP) on one group while each member's AL state machine is scripted for the faulted state (accept after k polls, refuse with a status code, stall forever, reach the state and fall back later), with frame sizes small enough that a status round needs several frames. Oracle: Ok => every member's last reported AL status was the claimed state; a refusing/stalling member => Err within the transition timeout in simulated time; AL control writes reached exactly the members; after into_op, cycles with scripted reported states (incl. devices that stop answering) compare the state list and all_op/is_in_state/group_in_single_state with independent recomputations.",
+   note="Refusal = old state + error bit + status code; 'requested state and error bit at once' is not generated. BOOT/undefined values constrain the summaries one way only (documented ambiguity of the bit-set).",
+   technique="deterministic simulation with device-side fault injection (dev_lag, dev_refuse, stall, dev_fallback, dropout) under a virtual clock; reference recomputation of summaries", section="DESIGN.md §4 C10")
+CLAIMED["C11"] = dict(
+   category="fault_enumeration",
+   text="For each configuration and each public data-returning entry point (receive, receive_slice, send_receive, send_receive_slice, register_read/write, with_wkc 0..3 against present and absent addresses, BRD with wkc n, status, eeprom_read_raw, eeprom_read, eeprom_size, sdo_read, sdo_write, sdo_read_array, into_safe_op, into_op) the healthy run counts the datagrams the target device services; the operation is then repeated once per position with the device silent from there on, once per position with only that datagram unanswered, and with the working counter increment replaced by 0/2/3/0xffff. Never Ok for a silent device; single-datagram entry points give exactly WorkingCounter{expected, received} with the wire's values; 'only datagram j unanswered' may fail or must return exactly the healthy result.",
+   note="Positions are enumerated exhaustively per (configuration, entry point); configurations are seeded samples. WrappedWrite::send is outside the quantifier.",
+   technique="deterministic simulation: exhaustive enumeration of device drop-out / unanswered-datagram positions and counter tampering per operation on the segment reference model", section="DESIGN.md §4 C11")
+
 NA = {
  "C19": "pure function of its input (a proc-macro and the code it generates): no schedule, clock, fault, I/O or second party for a simulator to control; input generation alone is not simulation (DESIGN.md §4 C19)",
 }
